@@ -158,35 +158,49 @@ ChooseCells ==
     /\ pc = "scene-cells"
     /\ \E n \in 1..MinOf(MaxCells, Cardinality(AllCells)) : \E S \in kSubset(n, AllCells) :
         /\ Antichain(S)
-        /\ scene' = [cells |-> S]
+        /\ scene' = [cells |-> S, inc |-> <<>>, wit |-> <<>>, d |-> <<>>, lbs |-> <<>>]
     /\ pc' = "scene-edges"
     /\ UNCHANGED <<opts, limit, results, tested, queue, work, flags>>
 
 Nodes(cells) == UNION {AncSelf(c) : c \in cells}
 
-ChooseEdges ==
+\* one edge at a time: the index cells it lies in, its witness cell (the cell holding its
+\* closest point) and its distance
+ChooseEdge ==
     /\ pc = "scene-edges"
-    /\ \E inc \in [Edges -> {S \in SUBSET scene.cells : S # {} /\ Cardinality(S) <= MaxSpan}] :
-       \E d \in [Edges -> 0..DMax] :
-        /\ scene' = [cells |-> scene.cells, inc |-> inc, d |-> d]
-    /\ pc' = "scene-bounds"
+    /\ \E S \in {S \in SUBSET scene.cells : S # {} /\ Cardinality(S) <= MaxSpan} :
+       \E w \in S : \E x \in 0..DMax :
+          scene' = [cells |-> scene.cells, inc |-> Append(scene.inc, S), wit |-> Append(scene.wit, w),
+                    d |-> Append(scene.d, x), lbs |-> <<>>]
+    /\ pc' = IF Len(scene.inc) + 1 = NEdges THEN "scene-bounds" ELSE "scene-edges"
     /\ UNCHANGED <<opts, limit, results, tested, queue, work, flags>>
 
 \* c can be the witness cell of e under the bounds lb
 Witness(sc, lb, c, e) == c \in sc.inc[e] /\ \A a \in AncSelf(c) : lb[a] <= sc.d[e]
 Admissible(sc, lb) == \A e \in Edges : \E c \in sc.cells : Witness(sc, lb, c, e)
-\* bounds of cells without any edge are never looked at: fixed to 0 (cuts the state space only)
+\* bounds of cells without any edge below them are never looked at: fixed to 0
 Relevant(sc, a) == \E e \in Edges : \E c \in sc.inc[e] : IsPrefix(a, c)
+NodeSeq(cells) == SortCells(Nodes(cells))
 
-ChooseBounds ==
+\* one tree node at a time: any bound that keeps the chosen witness cells admissible.
+\* (Every admissible bound function arises this way; the witness choice is forgotten
+\* afterwards, the algorithm may rely on admissibility only.)
+ChooseBound ==
     /\ pc = "scene-bounds"
-    /\ \E lb \in [Nodes(scene.cells) -> 0..DMax] :
-       \E inside \in SUBSET (1..NShapes) :
-        /\ Admissible(scene, lb)
-        /\ \A a \in Nodes(scene.cells) : ~Relevant(scene, a) => lb[a] = 0
-        /\ scene' = [cells |-> scene.cells, inc |-> scene.inc, d |-> scene.d,
-                     lb |-> lb, inside |-> inside]
-    /\ pc' = "options"
+    /\ LET ns == NodeSeq(scene.cells)
+           a == ns[Len(scene.lbs) + 1]
+           caps == {scene.d[e] : e \in {x \in Edges : a \in AncSelf(scene.wit[x])}} \cup {DMax}
+           hi == IF Relevant(scene, a) THEN Min(caps) ELSE 0
+       IN  \E v \in 0..hi :
+             IF Len(scene.lbs) + 1 < Len(ns)
+             THEN /\ scene' = [scene EXCEPT !.lbs = Append(@, v)]
+                  /\ pc' = "scene-bounds"
+             ELSE \E inside \in SUBSET (1..NShapes) :
+                  /\ scene' = [cells |-> scene.cells, inc |-> scene.inc, d |-> scene.d,
+                               lb |-> [n \in Nodes(scene.cells) |->
+                                         Append(scene.lbs, v)[CHOOSE i \in 1..Len(ns) : ns[i] = n]],
+                               inside |-> inside]
+                  /\ pc' = "options"
     /\ UNCHANGED <<opts, limit, results, tested, queue, work, flags>>
 
 ChooseOptions ==
@@ -394,7 +408,7 @@ Post ==
     /\ UNCHANGED <<scene, opts, limit, tested, queue, work, flags>>
 
 Next ==
-    \/ ChooseCells \/ ChooseEdges \/ ChooseBounds \/ ChooseOptions
+    \/ ChooseCells \/ ChooseEdge \/ ChooseBound \/ ChooseOptions
     \/ Start \/ DoEdge \/ DoCell \/ Brute \/ InitQueue1 \/ InitQueue2 \/ Pop \/ Post
 
 (***************************************************************************)
@@ -446,7 +460,7 @@ ResultsExact ==
 NoPanic == pc # "panic"
 
 \* the covering used by the search is what initCovering is specified to produce
-CoveringOK == pc \notin {"scene-cells"} => CoveringGood(scene.cells, Covering(scene.cells))
+CoveringOK == pc = "scene-edges" => CoveringGood(scene.cells, Covering(scene.cells))
 
 \* the optimized search never measures an edge twice when it has to avoid duplicates
 TypeOK ==
